@@ -205,6 +205,7 @@ def gen(run):
     recs = run.tlc('Gen_C03', ['INIT Init', 'NEXT Next', 'CONSTANTS Nodes = {1,2,3}', 'INVARIANT SliceClosed',
                                'INVARIANT SliceMinimal'], workers=2, timeout=600, tag='Gen_C03_n3').records
     run.exhaustive['all 512 graphs on 3 nodes x 3 entries'] = True
+    twins(run, recs)
     jobs = [(rec, i % 11, i % 40 == 0) for i, rec in enumerate(recs)]
     r4 = run.tlc('Gen_C03', ['INIT Init', 'NEXT Next', 'CONSTANTS Nodes = {1,2,3,4}', 'INVARIANT SliceClosed',
                              'INVARIANT SliceMinimal'], workers=4, timeout=1800, tag='Gen_C03_n4').records
@@ -221,6 +222,80 @@ def gen(run):
                 'ideal': {'cyclic': rec['cyclic'], 'slice': rec['slice']}, 'obs': {k: v for k, v in ev.items() if k != 'values'},
                 'kind': 'graph'}
         run.judge(case, ok, clause=clause, nontrivial=len(rec['slice']) > 1, part='gen')
+        run.traces_validated += 1
+
+
+# ---------------------------------------------------------------- twin sheets
+def twin_case(rec, order):
+    """The same graph placed at the same coordinates of two sheets, every formula spelled with unprefixed references (so the
+    formula TEXTS of the two sheets are identical while the constants they reach differ), plus a top cell that needs both copies.
+    The slice from the top cell must contain the closure on both sheets and every value must be the fold over its own sheet."""
+    deps = {i + 1: d for i, d in enumerate(rec['deps'])}
+    entry = rec['entry']
+    consts = [{1: 2, 2: 3, 3: 5, 4: 7}, {1: 200, 2: 300, 3: 500, 4: 700}]
+    sheets = [(TITLES[0], {}), (TITLES[1], {})]
+    for s in (0, 1):
+        for n, d in deps.items():
+            sheets[s][1][(0, n - 1)] = '=' + '+'.join([f'A{x}' for x in d] + [f'B{n}'])
+            sheets[s][1][(1, n - 1)] = consts[s][n]
+    a, b = f'A{entry}', f"'{TITLES[1]}'!A{entry}"
+    sheets[0][1][(3, 0)] = f'={a}+{b}' if order == 0 else f'={b}+{a}'
+    # expected values: fold over the closure (the graph is acyclic)
+    val = [{}, {}]
+
+    def v(s, n):
+        if n not in val[s]:
+            val[s][n] = consts[s][n] + sum(v(s, x) for x in deps[n])
+        return val[s][n]
+    want = {}
+    for s in (0, 1):
+        for n in rec['slice']:
+            want[(s, 0, n - 1)] = v(s, n)
+            want[(s, 1, n - 1)] = consts[s][n]
+    want[(0, 3, 0)] = v(0, entry) + v(1, entry)
+    problems = []
+    for mode in ('entry', 'whole'):
+        try:
+            excel = repo.mem_excel(sheets)
+            text, _ = repo.with_timeout(30, repo.translate_entry, excel, Cell(0, 3, 0)) if mode == 'entry' else repo.with_timeout(60, repo.translate_file, excel)
+            klass = repo.load_class(text)
+        except BaseException as e:  # noqa
+            if isinstance(e, (KeyboardInterrupt, SystemExit)):
+                raise
+            problems.append(f'{mode}: translation failed with {type(e).__name__}: {e}'[:160])
+            continue
+        names = set(MEMBER.findall(text))
+        missing = sorted(f'_{s}_{c}_{r}' for (s, c, r) in want if f'_{s}_{c}_{r}' not in names)
+        if missing:
+            problems.append(f'{mode}: members missing from the generated class: {missing}')
+        ex = repo.fresh_executor(klass)
+        for (s, c, r), e in sorted(want.items()):
+            try:
+                got = ex.get_cell(Cell(s, c, r)).value
+            except Exception as exn:  # noqa
+                got = f'raises {type(exn).__name__}'
+            if got != e:
+                problems.append(f"{mode}: {TITLES[s]}!{repo.col_letters(c + 1)}{r + 1} = {got!r}, its own sheet's cells give {e}")
+    return problems, sheets
+
+
+def _twin_job(args):
+    rec, order = args
+    try:
+        return twin_case(rec, order)
+    except Exception as e:
+        return None, f'harness: {type(e).__name__}: {e}'
+
+
+def twins(run, recs):
+    acyc = [r for r in recs if not r['anycycle']]
+    jobs = [(r, i % 2) for i, r in enumerate(acyc)]
+    res = core.pmap(_twin_job, jobs)
+    for (rec, order), (problems, sheets) in zip(jobs, res):
+        if problems is None:
+            raise core.MachineryError(sheets)
+        case = {'in': {'deps': rec['deps'], 'entry': rec['entry'], 'order': order, 'twin': True}, 'ideal': {'slice': rec['slice']}, 'obs': problems[:4], 'kind': 'twin'}
+        run.judge(case, not problems, clause='twin sheets (identical formula texts on two sheets): ' + '; '.join(problems[:3]), nontrivial=len(rec['slice']) > 1, part='twin')
         run.traces_validated += 1
 
 
@@ -296,6 +371,11 @@ def replay(run, case):
     global _SCRATCH
     _SCRATCH = run.scratch
     i = case['in']
+    if i.get('twin'):
+        rec = {'deps': i['deps'], 'entry': i['entry'], 'slice': case['ideal']['slice']}
+        problems, _ = twin_case(rec, i['order'])
+        run.judge(dict(case, obs=problems[:4]), not problems, clause='twin sheets: ' + '; '.join(problems[:3]))
+        return
     deps = {k + 1: d for k, d in enumerate(i['deps'])}
     ev = observe(deps, i['entry'], i['salt'], i.get('via_file', False), run.scratch)
     rej = validate(run, [{'deps': i['deps'], 'entry': i['entry'], 'outcome': ev['outcome'].split(':')[0], 'members': ev['members']}])
